@@ -74,6 +74,15 @@ CHECKS = {
     design_ref="DESIGN.md section 6 (C07)", note=_MEM_NOTE,
     technique="Coq proof: counting invariant acc = count_p (firstn cur h) + trace-level differential correspondence",
  ),
+ "C08": dict(
+    text="C08_find_iter_partial: for every finder configuration, ranker, CPU, needle, haystack and number of calls k, the k outputs of find_iter are the "
+         "greedy sequence (leftmost occurrence, resume needle.len().max(1) further) followed by None forever, and the size_hint taken before "
+         "each call brackets the number of matches still to come (upper bound rest/needle.len() proved from the spacing of greedy matches); "
+         "C08_rfind_iter_partial: the mirror sequence; C08_empty_needle / C08_rev_empty_needle: every offset 0..=len ascending resp. descending. "
+         "The iterator carries its prefilter state across calls: the proof uses C03 for EVERY state.",
+    design_ref="DESIGN.md section 6 (C08)", note=_MEM_NOTE + " Tier 1 as C03/C04.",
+    technique="Coq proof: induction over the number of calls on the modelled FindIter/FindRevIter state machines, relative to C03/C04 + differential correspondence of iteration histories",
+ ),
  "C10": dict(
     text="C10_config_and_ranker_irrelevant_partial: for any two prefilter settings, any two ranker FUNCTIONS (quantified over all N -> N) and any "
          "start addresses the finder results coincide; C10_prefilter_state_irrelevant_partial: for any two prefilter states (effective, inert, "
